@@ -10,7 +10,7 @@ if ! git -C /repo apply --check "$OUT/patch.diff" 2>/dev/null; then echo "   pat
 else
   APPLY=ok
   git -C /repo apply "$OUT/patch.diff"
-  cd /verif && ./check "$PID" "$TIER" > "$OUT/check_$TIER.log" 2>&1; CHK=$?
+  cd /verif && VERIF_EVIDENCE_DIR="$OUT/evidence" ./check "$PID" "$TIER" > "$OUT/check_$TIER.log" 2>&1; CHK=$?
   git -C /repo checkout -- .
   echo "   $NAME: check $PID $TIER exit=$CHK: $(grep -E 'VIOLATION|INCONCLUSIVE' "$OUT/check_$TIER.log" | head -2)"
 fi
